@@ -9,6 +9,7 @@ import FontVerif.Model.Iup
 import FontVerif.Lemmas.Packed
 import FontVerif.Lemmas.Iup
 import FontVerif.Lemmas.IupRat
+import FontVerif.Lemmas.GvarLayout
 set_option linter.unusedVariables false
 namespace FontVerif.C10
 open FontVerif FontVerif.PackedDeltas
@@ -275,5 +276,47 @@ example : contourEncode ⟨1, 2⟩ [(0,0),(1,1),(2,2),(3,3),(4,4),(5,5),(6,6),(7
 open FontVerif.Iup in
 example : inferSpec [(0,0),(10,0),(20,0),(20,10)] [(0,0),(1,0),(2,0),(0,0)] [true, false, true, true] 1
     = ((20, 20), (0, 1)) := by decide
+
+/-! ### gvar: glyph `i`'s offsets resolve to glyph `i`'s data, short and long offsets -/
+
+open FontVerif.GvarLayout in
+/-- For every list of per-glyph variation data (any sizes, empty = glyph without variations) and
+both offset formats: in the table `hdr ++ data` that write-fonts lays out (`hdr` = the 20-byte
+header plus the offsets array, whose length is `compute_data_array_offset`; the data with
+`pad_to_2byte_aligned` after each glyph when offsets are short), read-fonts' `data_for_gid(i)`
+with the stored offsets array returns exactly glyph `i`'s bytes (followed by the one padding byte
+when offsets are short and the length is odd), and `None` for a glyph without variations. -/
+theorem gvar_offsets_resolve (blobs : List (List Nat)) (long : Bool) (hdr : List Nat)
+    (hhdr : hdr.length = dataArrayOffset long blobs.length)
+    (hsz : (hdr ++ writeData long hdr.length blobs).length < 4294967296)
+    (i : Nat) (hi : i < blobs.length) :
+    dataForGid (hdr ++ writeData long hdr.length blobs) long (dataArrayOffset long blobs.length)
+        (storedOffsets long blobs) i
+      = some (if (blobs.getD i []).isEmpty then none
+              else some (blobs.getD i [] ++
+                (if !long ∧ (blobs.getD i []).length % 2 = 1 then [0] else []))) := by
+  have h := resolve_aux long (dataArrayOffset long blobs.length) blobs 0 hdr i
+    (by simp [readOffset, hhdr])
+    (by intro hl; subst hl; rw [hhdr]; simp [dataArrayOffset]) hsz hi
+  exact h
+
+open FontVerif.GvarLayout in
+/-- When `compute_flags` chooses short offsets, every stored offset fits the u16 it is written
+to (so `last += short_size as u16` neither truncates nor overflows). -/
+theorem gvar_short_offsets_fit (blobs : List (List Nat)) (h : useLong blobs = false) :
+    ∀ o ∈ storedOffsets false blobs, o ≤ 65535 := by
+  intro o ho
+  have h1 := offsetsFrom_le 0 blobs 0 o ho
+  have h2 := sum_short blobs
+  unfold useLong at h
+  simp only [decide_eq_false_iff_not] at h
+  omega
+
+-- non-vacuity: odd-sized glyph data gets a padding byte with short offsets, none with long
+open FontVerif.GvarLayout in
+example : storedOffsets false [[1, 2, 3], [], [4, 5]] = [0, 2, 2, 3] ∧
+    writeData false 28 [[1, 2, 3], [], [4, 5]] = [1, 2, 3, 0, 4, 5] ∧
+    storedOffsets true [[1, 2, 3], [], [4, 5]] = [0, 3, 3, 5] ∧
+    writeData true 36 [[1, 2, 3], [], [4, 5]] = [1, 2, 3, 4, 5] := by decide
 
 end FontVerif.C10
